@@ -927,8 +927,11 @@ func (t *State) undoUnconfirmedTx(tx *pb.Transaction, txMap map[string]*pb.Trans
 	if exist {
 		for _, childTxid := range childrenTxids {
 			childTx := txMap[childTxid]
-			// 先递归回滚依赖“我”的交易
-			t.undoUnconfirmedTx(childTx, txMap, txGraph, batch, undoDone, pundoList)
+			// 先递归回滚依赖“我”的交易. 子交易回滚失败时不能继续回滚自身, 否则子交易稍后再被回滚时顺序颠倒,
+			// 会把已经回滚掉的父交易的输出/版本重新写回去
+			if err := t.undoUnconfirmedTx(childTx, txMap, txGraph, batch, undoDone, pundoList); err != nil {
+				return err
+			}
 		}
 	}
 
